@@ -179,27 +179,36 @@ pub fn constant(c: &ConstantKind) -> NT {
         ConstantKind::Duration(d) => n("Dur", vec![("ns", NT::D(d.interval.whole_nanoseconds()))]),
         ConstantKind::TimeOfDay(t) => {
             let (h, m, sec, us) = t.hmsm();
-            n("Tod", vec![("h", NT::I(h as u128, false)), ("m", NT::I(m as u128, false)), ("s", NT::I(sec as u128, false)), ("us", NT::I(us as u128, false))])
+            let mut f = vec![("h", NT::I(h as u128, false)), ("m", NT::I(m as u128, false)), ("s", NT::I(sec as u128, false)), ("us", NT::I(us as u128, false))];
+            if EXACT.with(|e| e.get()) {
+                f.push(("exact", NT::S(format!("{:?}", t))));
+            }
+            n("Tod", f)
         }
         ConstantKind::Date(d) => {
             let (y, m, day) = d.ymd();
-            n("Date", vec![("y", NT::I(y.unsigned_abs() as u128, y < 0)), ("m", NT::I(m as u128, false)), ("d", NT::I(day as u128, false))])
+            let mut f = vec![("y", NT::I(y.unsigned_abs() as u128, y < 0)), ("m", NT::I(m as u128, false)), ("d", NT::I(day as u128, false))];
+            if EXACT.with(|e| e.get()) {
+                f.push(("exact", NT::S(format!("{:?}", d))));
+            }
+            n("Date", f)
         }
         ConstantKind::DateAndTime(dt) => {
             let (y, mo, day) = dt.ymd();
             let (h, m, sec, us) = dt.hmsm();
-            n(
-                "Dt",
-                vec![
-                    ("y", NT::I(y.unsigned_abs() as u128, y < 0)),
-                    ("mo", NT::I(mo as u128, false)),
-                    ("d", NT::I(day as u128, false)),
-                    ("h", NT::I(h as u128, false)),
-                    ("m", NT::I(m as u128, false)),
-                    ("s", NT::I(sec as u128, false)),
-                    ("us", NT::I(us as u128, false)),
-                ],
-            )
+            let mut f = vec![
+                ("y", NT::I(y.unsigned_abs() as u128, y < 0)),
+                ("mo", NT::I(mo as u128, false)),
+                ("d", NT::I(day as u128, false)),
+                ("h", NT::I(h as u128, false)),
+                ("m", NT::I(m as u128, false)),
+                ("s", NT::I(sec as u128, false)),
+                ("us", NT::I(us as u128, false)),
+            ];
+            if EXACT.with(|e| e.get()) {
+                f.push(("exact", NT::S(format!("{:?}", dt))));
+            }
+            n("Dt", f)
         }
         ConstantKind::BitStringLiteral(b) => n("Bits", vec![("v", uint(&b.value)), ("type", oelem(&b.data_type))]),
     }
@@ -751,4 +760,19 @@ pub fn element(e: &LibraryElementKind) -> NT {
 
 pub fn library(lib: &Library) -> NT {
     l(lib.elements.iter().map(element).collect())
+}
+
+thread_local! {
+    static EXACT: std::cell::Cell<bool> = const { std::cell::Cell::new(false) };
+}
+
+/// Like `library`, with every time-of-day / date-and-time literal carrying its complete Debug rendering
+/// as well: their fields are private and the only accessors are the ones the renderer uses, so a tree
+/// built through the accessors alone cannot see what the accessors lose. Used to compare two libraries
+/// of the implementation with each other (C10), never against a harness-built tree.
+pub fn library_exact(lib: &Library) -> NT {
+    EXACT.with(|e| e.set(true));
+    let r = library(lib);
+    EXACT.with(|e| e.set(false));
+    r
 }
